@@ -407,7 +407,13 @@ func (ex *pathExec) chooseN(what string, n int) int {
 		}
 		ex.pos++
 		ex.trace = append(ex.trace, e)
+		if debugTrace {
+			ex.dbg[len(ex.dbg)-1] += fmt.Sprintf("=%d", e.v)
+		}
 		return int(e.v)
+	}
+	if debugTrace {
+		ex.dbg[len(ex.dbg)-1] += "=0"
 	}
 	for k := 1; k < n; k++ {
 		sib := make([]traceEntry, len(ex.trace)+1)
